@@ -49,3 +49,6 @@ pub assume_specification<T: AsRef<[u8]>> [<Cursor<T> as Seek>::seek] (c: &mut Cu
                 Some(t) => r is Ok && r->Ok_0 == t && cur_pos(*final(c)) == t,
                 None => r is Err && cur_pos(*final(c)) == cur_pos(*old(c)),
             };
+pub assume_specification<T, A> [<std::sync::Arc<T, A> as std::convert::AsRef<T>>::as_ref] (a: &std::sync::Arc<T, A>) -> (r: &T)
+    where A: std::alloc::Allocator, T: std::marker::MetaSized + ?Sized,
+    ensures r == &**a;
